@@ -133,9 +133,11 @@ class Ob:
     cfg: dict = {}
     inputs: list = []
     max_paths = 400
-    explore_budget = 120.0
-    solver_timeout_ms = 60000
-    exact_timeout_ms = 60000
+    # generous limits: a loaded machine can be an order of magnitude slower than the development sandbox; nothing below is
+    # ever reported as success when a limit is hit
+    explore_budget = 1500.0
+    solver_timeout_ms = 300000
+    exact_timeout_ms = 180000
     tv_points = 2
     expect_nonlinear = False
     stubs: list = []          # names of contract stubs this obligation relies on
@@ -404,7 +406,18 @@ def decide_path(ob, path, claims, assume_f, replay_fn, dump=None):
     if getattr(path, "lemmas", None):
         names_ = [n for n, _, _, _ in ob.inputs]
         proved = []
-        for lem in path.lemmas:
+        # all lemmas at once first (one solver start-up); individually only if that is not conclusive
+        core.CTX.monos = set(monos)
+        allz = [lem.z3() for lem in path.lemmas]
+        mset_all = set(core.CTX.monos)
+        t_ = time.time()
+        rl, _ = external_check(base + _exact_constraints(path, mset_all) + [z3.Not(z3.And(allz))], [], min(120.0, ob.exact_timeout_ms / 1000.0))
+        pv.queries += 1
+        pv.solver_s += time.time() - t_
+        todo = [] if rl == "unsat" else list(path.lemmas)
+        if rl == "unsat":
+            proved = allz
+        for lem in todo:
             core.CTX.monos = set(monos)
             lz = lem.z3()
             mset = set(core.CTX.monos)
@@ -675,7 +688,7 @@ def run_obligation(ob, seed=0, tier="quick", collect_functions=True):
     core.CTX.__init__()
     core.CTX.eager_ite = bool(getattr(ob, "eager_ite", False))
     core.CTX.exact_branching = bool(getattr(ob, "exact_branching", False))
-    core.CTX.branch_timeout_ms = int(getattr(ob, "branch_timeout_ms", 2000))
+    core.CTX.branch_timeout_ms = int(getattr(ob, "branch_timeout_ms", 10000))
     rng = random.Random(f"{seed}:{ob.ident()}")
     res = {"name": ob.name, "cfg": ob.cfg, "ident": ob.ident(), "status": None, "paths": 0, "queries": 0,
            "solver_s": 0.0, "symexec_s": 0.0, "violations": [], "inconclusive": [], "functions": [],
@@ -927,7 +940,7 @@ def run_tasks(modname, tier, order, seed, jobs, specs, verbose=False, hard_timeo
     limit; a crashed or killed task is reported as inconclusive"""
     import multiprocessing as mp
     ctx = mp.get_context("fork")
-    hard_timeout = hard_timeout or float(os.environ.get("VERIF_TASK_TIMEOUT", "900" if tier == "quick" else "3600"))
+    hard_timeout = hard_timeout or float(os.environ.get("VERIF_TASK_TIMEOUT", "2700" if tier == "quick" else "7200"))
     pending = list(order)
     running = {}
     results = {}
